@@ -63,6 +63,9 @@ func genCommon(t *rapid.T, c *Case) {
 func genConforming(t *rapid.T) Case {
 	c := Case{Family: "conforming"}
 	genCommon(t, &c)
+	if rapid.IntRange(0, 5).Draw(t, "slow_ptt") == 0 {
+		c.PTTKeyUS = rapid.SampledFrom([]int{200, 1000, 3000}).Draw(t, "ptt_key_us")
+	}
 	pre := rapid.SliceOfN(rapid.SampledFrom(preEvents), 0, 5).Draw(t, "pre_events")
 	switch k := rapid.IntRange(0, 19).Draw(t, "connect"); {
 	case k < 9:
